@@ -2,9 +2,10 @@
 import os
 from tools.py2lean import gen_c04
 
-LEAN_TARGETS = ["EasyFEAVerif.Props.C04", "EasyFEAVerif.Props.C04Explicit"]
-PROPS_MODULES = ["EasyFEAVerif.Props.C04", "EasyFEAVerif.Props.C04Explicit"]
+LEAN_TARGETS = ["EasyFEAVerif.Props.C04", "EasyFEAVerif.Props.C04Explicit", "EasyFEAVerif.Props.C04Unknowns"]
+PROPS_MODULES = ["EasyFEAVerif.Props.C04", "EasyFEAVerif.Props.C04Explicit", "EasyFEAVerif.Props.C04Unknowns"]
 TRUSTED_EXTRA = [
+    "C04: which dofs a condition constrains (Props/C04Unknowns.lean on Model/Constraints.dofsNodes): with admissible names every dof belongs to a node the condition names, a foreign name puts dof 0 into the condition, and add_dirichlet checks the names before the lookup (statements of Get_dofs_nodes, _Check_dofs and add_dirichlet pinned in Gen/C04/Unknowns.lean)",
     "C04: linear-solver backends (scipy spsolve, cg, bicg, gmres, lgmres, lsq_linear) are assumed to return a solution of the system they are handed; their agreement and the residual are measured on the real code each run. pypardiso / PETSc / mpi4py are not installed and never exercised.",
     "C04: the glue model (Model/Constraints.lean) is hand-written and compared with the real dof lookup, Dirichlet vector, elimination solve and bordered Lagrange system in exact rationals",
 ]
